@@ -147,6 +147,7 @@ Definition advance_with (t c : Z) : option Z :=
   else if t =? T_OffsetHours then (if c =? 58 then Some T_OffsetMinutes else None)
   else if t =? T_OffsetMinutes then (if (c =? 32) || (c =? 90) then Some T_Timescale else None)
   else Some t.
+Definition is_name_token (t : Z) : bool := (t =? T_Weekday) || (t =? T_WeekdayShort) || (t =? T_MonthName) || (t =? T_MonthNameShort).
 Definition is_numeric_token (t : Z) : bool :=
   negb ((t =? T_Timescale) || (t =? T_Weekday) || (t =? T_WeekdayShort) || (t =? T_MonthName) || (t =? T_MonthNameShort)).
 
@@ -386,6 +387,10 @@ Definition fparse_step (fmt : format) (s : str) (n : nat) (st : fstate) (pos : n
   let is_last := (S pos =? n)%nat in
   let cur := f_cur st in
   let ct := TextFmt.token cur in
+  (* the second separator of the previous token in front of a weekday or month name is skipped first *)
+  if (pos =? f_prev st)%nat && negb is_last && is_name_token ct && second_sep_is (f_prev_item st) c && negb (sep_char_is cur c) then
+    FCont (mkF (f_dec st) (f_ts st) (f_osign st) (f_doy st) (f_wd st) (S pos) (f_idx st) cur (f_prev_item st))
+  else
   if is_last || ((is_numeric_token ct && negb (is_numeric c)) || (negb (is_numeric_token ct) && sep_char_is cur c)) then
     if (pos =? f_prev st)%nat && (second_sep_none (f_prev_item st) || second_sep_is (f_prev_item st) c) then
       FCont (mkF (f_dec st) (f_ts st) (f_osign st) (f_doy st) (f_wd st) (S pos) (f_idx st) cur (f_prev_item st))
